@@ -163,22 +163,27 @@ def run_c17(run, tier, wd, binary, replay):
     rng = random.Random(run.seed * 19 + 17)
     cases = vl.twin_cases(rng, True)
     cases += vl.random_reps(rng, 60 if tier == "quick" else 2500)     # seeded magnitudes / shapes inside the identity classes
+    cases += vl.alias_cases()
     if replay:
         rec = json.load(open(replay))["replay"]["record"]
-        cases = [c for c in cases if c["class"] == rec["class"] and c["ftype"] == rec["ftype"]]
+        cases = [c for c in cases if c["kind"] == rec["kind"] and c.get("class") == rec.get("class") and c["ftype"] == rec["ftype"]]
     vlib.write_ndjson(os.path.join(bd, "in.ndjson"), cases)
     p = vlib.run_harness(binary, ["values", "-in", "in.ndjson", "-out", "vt.ndjson"], cwd=bd)
     if p.returncode != 0:
         raise vlib.Infra("values harness failed: " + p.stderr[-800:])
     lines = open(os.path.join(bd, "vt.ndjson")).readlines()
     monitor_lines(run, bd, "TraceValuePipe", lines, {}, ["C17_TwinHolds", "C17_LiteralAsWritten", "C17_PropIsValue", "C17_PrefixExact", "C09_NoPanic"],
-                  "real binding", lambda rec: "class %s into %s%s: configured %s, prefix %s, value %s, prop %s, literal %s" % (
+                  "real binding", lambda rec: ("class %s into %s%s: configured %s, prefix %s, value %s, prop %s, literal %s" % (
                       rec.get("class"), rec.get("ftype"), " (field preset)" if rec.get("preset") else "", rec.get("cfg"), rec.get("P"), rec.get("V"), rec.get("Q"), rec.get("L")))
+                  if rec["kind"] == "twin" else "key bound by two components, the first writes through its %s: configured %s, second got %s / %s, configuration now %s" % (
+                      rec.get("ftype"), rec.get("want"), rec.get("bp"), rec.get("bv"), rec.get("get")))
     # known finding F10: the cells where the value path is known to differ from the prefix path
     known = {k["id"]: k for k in vlib.known_for("C17")}
     seen_cells = set()
     for ln in lines:
         rec = json.loads(ln)
+        if rec["kind"] != "twin":
+            continue
         if rec["P"]["ok"] and not (rec["V"]["ok"] and rec["V"]["val"] == rec["P"]["val"]):
             seen_cells.add((rec["class"], rec["ftype"]))
     for k in known.values():
@@ -187,7 +192,7 @@ def run_c17(run, tier, wd, binary, replay):
         if hit:
             run.known(k, "%d of the listed (class, field type) cells still differ, e.g. %s" % (len(hit), sorted(hit)[0]))
     for c in cases:
-        run.count_case([c["class"], c["ftype"], c["yaml"], c.get("preset")], True)
+        run.count_case([c.get("class", c["kind"]), c["ftype"], c["yaml"], c.get("preset")], True)
     run.sample(json.loads(lines[len(lines) // 2]))
     run.cov["rule"] = ("cases = lexical value class (34 classes, 1-6 concrete representatives each) x field type (12: scalars, slices, map, any, pointers, "
                        "struct, pointer to struct) x field zero / preset before the start; each bound by prefix, by placeholder, by prop and as a "
